@@ -329,19 +329,27 @@ func (c *Client) Backup(ctx context.Context, br *command.BackupRequest, nodeAddr
 
 	// The backup stream is unconditionally compressed, so depending on whether
 	// the user requested compression, we may need to decompress the response.
-	var rc io.ReadCloser
-	rc = conn
-	if !br.Compress {
-		gzr, err := gzip.NewReader(conn)
-		if err != nil {
-			return err
-		}
-		gzr.Multistream(false)
-		rc = gzr
-		defer rc.Close()
+	// Either way the stream is decompressed here, since the end of the compressed
+	// data is the only indication that the complete backup has been received.
+	var src io.Reader = conn
+	dst := w
+	if br.Compress {
+		// Pass the compressed bytes through as they are read.
+		src = io.TeeReader(conn, w)
+		dst = io.Discard
 	}
-	_, err = io.Copy(w, rc)
-	return err
+	gzr, err := gzip.NewReader(src)
+	if err != nil {
+		handleConnError(conn)
+		return err
+	}
+	defer gzr.Close()
+	gzr.Multistream(false)
+	if _, err := io.Copy(dst, gzr); err != nil {
+		handleConnError(conn)
+		return err
+	}
+	return nil
 }
 
 // Load loads a SQLite file into the database. If creds is nil, then no
